@@ -53,7 +53,7 @@ theorem inInt_spec {v : Int} (h : inInt v = true) : minInt ≤ v ∧ v ≤ maxIn
 
 structure FeatureFacts (locus : Str) (f : Feature) : Prop where
   name : ∀ x ∈ ['\t', '\n'], x ∉ effName locus f
-  noHash : hasPrefix sHash2 (effName locus f) = false
+  noHash : hasPrefix sHash1 (effName locus f) = false
   source : ∀ x ∈ ['\t', '\n'], x ∉ effSource f
   type : ∀ x ∈ ['\t', '\n'], x ∉ effType f
   score : ∀ x ∈ ['\t', '\n'], x ∉ f.score
@@ -128,13 +128,13 @@ theorem parseFeature_build {locus : Str} {f : Feature} (h : wfFeature locus f = 
     · exact hf.phase _ (by simp)
 
 theorem buildFeature_line {locus : Str} {f : Feature} (h : wfFeature locus f = true) :
-    buildFeature locus f ≠ [] ∧ hasPrefix sHash2 (buildFeature locus f) = false ∧ '\n' ∉ buildFeature locus f := by
+    buildFeature locus f ≠ [] ∧ hasPrefix sHash1 (buildFeature locus f) = false ∧ '\n' ∉ buildFeature locus f := by
   have hf := featureFacts h
   rw [buildFeature_eq]
   refine ⟨?_, ?_, ?_⟩
   · simp [joinSep]
   · rw [joinSep_cons2]
-    exact hasPrefix_hash2_col _ hf.noHash
+    exact hasPrefix_hash_col _ hf.noHash
   · intro hm
     rcases mem_joinSep hm with e | ⟨l, hl, hc⟩
     · exact absurd e (by decide)
@@ -167,18 +167,18 @@ theorem sGffVersion_free : ∀ x ∈ [' ', '\n'], x ∉ sGffVersion := by decide
 theorem sSeqRegion_free : ∀ x ∈ [' ', '\n'], x ∉ sSeqRegion := by decide
 
 theorem header_line_facts (a : Char) (t rest : Str) (ha : a ≠ 'F') :
-    hasPrefix sHash2 (('#' :: '#' :: a :: t) ++ rest) = true ∧ ('#' :: '#' :: a :: t) ++ rest ≠ sFasta := by
-  refine ⟨by simp [hasPrefix, sHash2, List.isPrefixOf], ?_⟩
+    hasPrefix sHash1 (('#' :: '#' :: a :: t) ++ rest) = true ∧ ('#' :: '#' :: a :: t) ++ rest ≠ sFasta := by
+  refine ⟨by simp [hasPrefix, sHash1, List.isPrefixOf], ?_⟩
   intro e
   simp only [sFasta, List.cons_append, List.cons.injEq, true_and] at e
   exact ha e.1
 
-theorem versionLine_facts (x : Gff) : hasPrefix sHash2 (versionLine x) = true ∧ versionLine x ≠ sFasta := by
+theorem versionLine_facts (x : Gff) : hasPrefix sHash1 (versionLine x) = true ∧ versionLine x ≠ sFasta := by
   unfold versionLine
   rw [sGffVersion_eq]
   split <;> exact header_line_facts _ _ _ (by decide)
 
-theorem regionLine_facts (x : Gff) : hasPrefix sHash2 (regionLine x) = true ∧ regionLine x ≠ sFasta := by
+theorem regionLine_facts (x : Gff) : hasPrefix sHash1 (regionLine x) = true ∧ regionLine x ≠ sFasta := by
   unfold regionLine
   rw [sSeqRegion_eq]
   simp only [List.append_assoc]
@@ -311,7 +311,7 @@ theorem chunks_mem : ∀ (ws : List Nat) (s : Str), ∀ l ∈ chunks ws s, ∀ c
 
 structure FeatLineFacts (f : FeatLine) : Prop where
   cols : ∀ c ∈ [f.seqid, f.source, f.type, itoa f.first, itoa f.last, f.score, f.strand, f.phase], ∀ x ∈ ['\t', '\n'], x ∉ c
-  noHash : hasPrefix sHash2 f.seqid = false
+  noHash : hasPrefix sHash1 f.seqid = false
   first : minInt ≤ f.first ∧ f.first ≤ maxInt
   last : minInt ≤ f.last ∧ f.last ≤ maxInt
   attrs : AttrFacts f.attrs
@@ -345,12 +345,12 @@ theorem parseFeature_featText {f : FeatLine} (h : wfFeatLine f = true) :
   rfl
 
 theorem featText_line {f : FeatLine} (h : wfFeatLine f = true) :
-    featText f ≠ [] ∧ hasPrefix sHash2 (featText f) = false ∧ '\n' ∉ featText f := by
+    featText f ≠ [] ∧ hasPrefix sHash1 (featText f) = false ∧ '\n' ∉ featText f := by
   have hf := featLineFacts h
   unfold featText
   refine ⟨by simp [joinSep], ?_, ?_⟩
   · rw [joinSep_cons2]
-    exact hasPrefix_hash2_col _ hf.noHash
+    exact hasPrefix_hash_col _ hf.noHash
   · intro hm
     rcases mem_joinSep hm with e | ⟨l, hl, hc⟩
     · exact absurd e (by decide)
@@ -380,7 +380,19 @@ theorem midOk_directives : ∀ (ds : List Str), (∀ l ∈ ds, wfDirective l = t
   | l :: ds, h => by
     have hl := h l (by simp)
     simp only [wfDirective, Bool.and_eq_true, bne_iff_ne, ne_eq] at hl
-    have := MidOk.append (MidOk.skip hl.1.1 hl.1.2) (midOk_directives ds (fun x hx => h x (by simp [hx])))
+    have := MidOk.append (MidOk.skip (hasPrefix_hash1_of_hash2 hl.1.1) hl.1.2) (midOk_directives ds (fun x hx => h x (by simp [hx])))
+    simpa using this
+
+theorem midOk_comments : ∀ (cs : List Str), (∀ l ∈ cs, wfComment l = true) → MidOk cs []
+  | [], _ => MidOk.nil
+  | l :: cs, h => by
+    have hl := h l (by simp)
+    simp only [wfComment, Bool.and_eq_true, Bool.not_eq_true'] at hl
+    have hne : l ≠ sFasta := by
+      intro e
+      rw [e] at hl
+      exact absurd hl.1.2 (by decide)
+    have := MidOk.append (MidOk.skip hl.1.1 hne) (midOk_comments cs (fun x hx => h x (by simp [hx])))
     simpa using this
 
 theorem featBlock_noNl : ∀ (fs : List FeatLine) (gaps : List Nat), (∀ f ∈ fs, wfFeatLine f = true) →
